@@ -78,6 +78,12 @@ impl SwiftField for Field71F {
     where
         Self: Sized,
     {
+        if !input.is_ascii() {
+            return Err(ParseError::InvalidFormat {
+                message: "Field 71F must contain only ASCII characters".to_string(),
+            });
+        }
+
         if input.len() < 4 {
             return Err(ParseError::InvalidFormat {
                 message: format!(
@@ -136,6 +142,12 @@ impl SwiftField for Field71G {
     where
         Self: Sized,
     {
+        if !input.is_ascii() {
+            return Err(ParseError::InvalidFormat {
+                message: "Field 71G must contain only ASCII characters".to_string(),
+            });
+        }
+
         if input.len() < 4 {
             return Err(ParseError::InvalidFormat {
                 message: format!(
